@@ -1,9 +1,12 @@
 import GridVerif.Model.Proto
 import GridVerif.Model.Elem
 import GridVerif.Model.LocalGrid
+import GridVerif.Model.LocalGridGen
 
 /-
-  Driver of C10.  One line = one object with its whole history:
+  Driver of C10.  The operations are executed by the **generated** definitions
+  (`Gen/LocalGrid.lean` through `LocalGridGen.genRun`); `Props/C10/Gen.lean` proves that they are
+  the operations of the hand model.  One line = one object with its whole history:
 
     C10.hist <cls> <oned 0|1> <dim> <points: mat> <centre: 0 | 1 vec> <weights: vec>
              <domain: 0 | 1 lo hi> <nops> <op>*
@@ -19,7 +22,7 @@ import GridVerif.Model.LocalGrid
   or the error tag of the constructor.
 -/
 namespace GridVerif.Driver.C10
-open GridVerif.Proto GridVerif.LocalGrid
+open GridVerif.Proto GridVerif.LocalGrid GridVerif.LocalGridGen
 
 abbrev P (α : Type) := List String → Option (α × List String)
 
@@ -116,8 +119,9 @@ def handle : List String → Option String
     match init cls oned dim pts centre w dom with
     | .error e => pure (sErr e)
     | .ok s =>
-      let (_, outs) := run s ops
-      pure ("ok " ++ String.intercalate " | " (outs.map sOut))
+      match genRun s ops with
+      | some (_, outs) => pure ("ok " ++ String.intercalate " | " (outs.map sOut))
+      | none => pure "unmodelled"   -- the generated code left the modelled fragment
   | _ => none
 
 end GridVerif.Driver.C10
